@@ -66,6 +66,13 @@ def defs(ind: str, doc: Optional[str], name: str = 'X') -> Dict[str, str]:
         'lambda': f'{ind}{X} = lambda a: a\n',
         'async_static': f'{ind}@staticmethod\n{ind}async def {X}(a):\n{body}{P}',
         'class_kw': f'{ind}class {X}(object, metaclass=type):\n{body}{P}',
+        'prop-then-string': f'{ind}@property\n{ind}def {X}(self):\n{body}{ind}    return 1\n{ind}"a stray string after the property"\n',
+        'targets-list': f'{ind}[{X}, H0{X}] = 1, 2\n',
+        'targets-starred': f'{ind}{X}, *S0{X} = 1, 2, 3\n',
+        'targets-nested': f'{ind}({X}, (N0{X}, M0{X})) = 1, (2, 3)\n',
+        'exc-dotted-builtin': f'{ind}import builtins\n{ind}class {X}(builtins.ValueError):\n{body}{P}',
+        'exc-dotted-builtin-as': f'{ind}import builtins as bi0{X}\n{ind}class {X}(bi0{X}.KeyError):\n{body}{P}',
+        'implicit-clsm': f'{ind}class {X}:\n{ind}    def __init_subclass__(cls, **kw):\n{ind}        pass\n{ind}    def __class_getitem__(cls, item):\n{ind}        pass\n{ind}    def __new__(cls):\n{ind}        pass\n',
         **stacks(ind, body, X),
         **busy(ind, body, X),
         # a function defined OUTSIDE the class (module level, same name) wrapped in the class body: the class binds the name
@@ -143,7 +150,7 @@ PLACE: Dict[str, Tuple[str, ...]] = {
 }
 NEGATIVE = ('func', 'main', 'main-reversed')
 UNJUDGED = ('else-of-false', 'while-once')
-CLASS_ONLY = ('static', 'clsm', 'prop', 'oldstatic', 'oldclsm', 'async_static', 'outer-static', 'outer-clsm', 'outer-static-other-name')
+CLASS_ONLY = ('prop-then-string', 'static', 'clsm', 'prop', 'oldstatic', 'oldclsm', 'async_static', 'outer-static', 'outer-clsm', 'outer-static-other-name')
 
 LITERALS = ['1', '-1', '1.5', '1j', "'s'", "b'b'", 'True', 'None', '[]', '[1, 2]', "['a', 'b']", "[1, 'a']", '[[1], [2]]', '()', '(1, 2)', "(1, 'a')", '(1,)',
             '{}', "{'a': 1}", "{'a': 1, 'b': 's'}", '{1: 2, 3: 4}', '{1, 2}', "{'a'}", '[1.0, 2.0]', '[True, False]', '[None]', '[b"x"]', '{"a": [1]}',
@@ -269,7 +276,7 @@ def singles() -> List[Tuple[str, str, List[Tuple[str, str, Optional[str]]], str]
                 prelude = ''
                 if isinstance(src, tuple):
                     prelude, src = src
-                if dn != 'none' and kn in ('var_list', 'var_ann', 'var_chain', 'var_tuple', 'lambda'):
+                if dn != 'none' and kn in ('var_list', 'var_ann', 'var_chain', 'var_tuple', 'lambda', 'targets-list', 'targets-starred', 'targets-nested', 'implicit-clsm'):
                     continue
                 full = prelude + wrap(pl, src)
                 try:
@@ -280,6 +287,8 @@ def singles() -> List[Tuple[str, str, List[Tuple[str, str, Optional[str]]], str]
                 names = [('X', f'{kn}:{dn}' if kn in ('def', 'class', 'var_int', 'prop') else (('presence:' + kn) if kn.startswith('outer-') else kn), docexp)]
                 if kn == 'var_chain':
                     names.append(('Z0X', kn, None))
+                for extra in {'targets-list': ['H0X'], 'targets-starred': ['S0X'], 'targets-nested': ['N0X', 'M0X']}.get(kn, []):
+                    names.append((extra, kn, None))
                 if kn == 'var_tuple':
                     names.append(('T0X', kn, None))
                 out.append((pl, full, names, ''))
